@@ -113,7 +113,9 @@ def body_bucket(n, batch_size, rate4, has_mts, has_exp, has_mbe, drop, sort, l0,
         return False
     if not drop and any(c != 1 for c in seen):              # conservation
         return False
-    if mbe is not None and worst > mbe:
+    if mbe is not None and not drop and worst > mbe:
+        # (with drop_incomplete=True discarded examples are not withheld but cannot be told apart from outside; the bucketing is
+        # the same as in the keep run, which is compared below)
         return False
     if drop:
         # exactly the batches that never completed are dropped: same run without dropping, minus the incomplete ones
